@@ -100,6 +100,45 @@ impl crate::core::Model for FO {
     fn apply(&mut self, l: &serde_json::Value) -> serde_json::Value {
         let prios: Vec<i32> = l["prios"].as_array().unwrap().iter().map(|p| p.as_i64().unwrap() as i32).collect();
         let fired: Vec<String> = match l["engine"].as_str().unwrap() {
+            "kb" => {
+                let kb = rust_rule_engine::KnowledgeBase::new("big");
+                for (i, p) in prios.iter().enumerate() {
+                    let _ = kb.add_rule(crate::models::kb::mk_rule(&format!("r{}", i + 1), *p as i64));
+                }
+                let listed: Vec<String> = kb.get_rules().iter().map(|r| r.name.clone()).collect();
+                let by_sal: Vec<String> = kb.get_rules_by_salience().into_iter().map(|i| kb.get_rule_by_index(i).map(|r| r.name).unwrap_or_default()).collect();
+                if by_sal != listed {
+                    return json!({"order": [], "views_disagree": {"get_rules": listed, "by_salience": by_sal}});
+                }
+                listed
+            }
+            "forward" => {
+                use rust_rule_engine::engine::rule::{Condition, ConditionGroup, Rule};
+                use rust_rule_engine::types::{ActionType, Operator, Value as RV};
+                let kb = rust_rule_engine::KnowledgeBase::new("big");
+                for (i, p) in prios.iter().enumerate() {
+                    let c = ConditionGroup::single(Condition::new("A.x".to_string(), Operator::Equal, RV::Integer(1)));
+                    let name = format!("r{}", i + 1);
+                    let mut r = Rule::new(name.clone(), c, vec![ActionType::Custom { action_type: "note".to_string(), params: [("n".to_string(), RV::String(name))].into_iter().collect() }])
+                        .with_salience(*p);
+                    r.no_loop = true;
+                    let _ = kb.add_rule(r);
+                }
+                let mut e = rust_rule_engine::RustRuleEngine::new(kb);
+                let log = std::sync::Arc::new(std::sync::Mutex::new(Vec::<String>::new()));
+                let lg = log.clone();
+                e.register_action_handler("note", move |params, _facts| {
+                    if let Some(RV::String(n)) = params.get("n") {
+                        lg.lock().unwrap().push(n.clone());
+                    }
+                    Ok(())
+                });
+                let facts = rust_rule_engine::Facts::new();
+                facts.set("A", RV::Object([("x".to_string(), RV::Integer(1))].into_iter().collect()));
+                let _ = e.execute(&facts);
+                let v = log.lock().unwrap().clone();
+                v
+            }
             "typed" => {
                 let mut e = TypedReteUlEngine::new();
                 for (i, p) in prios.iter().enumerate() {
